@@ -83,6 +83,10 @@ WITNESSES = [
     W("const-nested-set-literal", {"main.thrift": 'namespace rs w\nconst map<i32, set<string>> MS = {1: ["a", "b"], 2: []}\n'}, r"PANIC unexpected literal"),
     # a list nested in a const list was typed as an array of length 0 (F-14y)
     W("const-nested-list-literal", {"main.thrift": "namespace rs w\nconst list<list<i32>> LL = [[1], [2, 3], []]\n"}, r"E0308"),
+    # a Thrift enum member called like an inherent method of the emitted newtype (change_case off keeps the spelling): F-14z
+    W("enum-member-named-like-emitted-method", {"main.thrift": "namespace rs w\nenum E {\n  inner = 1,\n  other = 2,\n}\n"},
+      r"E0592 duplicate definitions with name `(?:inner|to_string)`", cfg=dict(mode="single", keep=0, cc=0, iu=0),
+      also=r"E0599 no method named `(?:inner|to_string)`"),
     W("enum-default-through-typedef", {"main.thrift": "namespace rs w\nenum E { A = 1 }\ntypedef E Te\nstruct S { 1: Te e = E.A }\n"}, r"PANIC invalid convert"),
     W("type-named-like-generic-parameter", {"main.thrift": "namespace rs w\nunion T { 1: i32 a, 2: string b }\n"}, r"E0599|E0277"),
     W("type-named-like-generic-parameter", {"p0.proto": 'syntax = "proto3";\npackage w;\nmessage B {\n  int32 x = 1;\n  B next = 2;\n}\n'},
@@ -98,6 +102,7 @@ WITNESSES = [
     W("service-name-underscore-digit", {"main.thrift": "namespace rs w\nservice _1 { i32 K(1: i32 a) }\n"}, r"exit 1|expected type"),
 ]
 FINDING_IDS = {  # class -> id in known_findings.json
+    "enum-member-named-like-emitted-method": "F-14z",
     "proto-type-name-shadowed-by-nested-item": "F-14w", "const-nested-set-literal": "F-14x", "const-nested-list-literal": "F-14y",
     "split-mode-root-module": "F-14f", "union-only-by-value-cycle": "F-14b", "path-keyword-suffix-collision": "F-14c", "related-path-target-is-prefix": "F-14d",
     "lone-underscore-identifier": "F-14e", "container-literal-inside-container-literal": "F-14g", "uuid-not-a-direct-field": "F-14h",
@@ -226,6 +231,9 @@ def classes_of(doc, scopes, names, cfg, ucyc):
         for (k, n, _), e in zip(sibs, em):
             if n == "_":
                 cls.add("lone-underscore-identifier")
+            if k == "constvariant" and e in ("inner", "to_string"):
+                # the member becomes an associated const of the emitted newtype, next to its inherent methods inner() / to_string()
+                cls.add("enum-member-named-like-emitted-method")
             if lab.startswith("mod:"):
                 if k in ("struct", "exception", "union", "enum", "typedef", "service"):
                     if e == "T":
